@@ -157,25 +157,25 @@ theorem gl_gamma_limit {nG : Nat} (G : Fin nG → V3 K) (d : V3 K) (eps : T3 K) 
 force constants are the inverse transform of `D(q) − dd(q)/sqrt(mm')` at the commensurate points
 (`make_Gonze_nac_dataset`); adding the same `dd(q)` back (same `G` list, same `Λ`, same
 representative of q) returns `D(q)` exactly.  Hypotheses: the subtracted family is Hermitian and
-has the time-reversal structure (C06 `roundtrip_dm`).  For representatives of q outside the first
+has the time-reversal structure up to the zone factor (C06 `roundtrip_dm`).  For representatives of q outside the first
 zone `dd` differs by the truncation of the reciprocal sum — not covered (oracle only). -/
 theorem gl_commensurate_partial {N : Nat} (L : Lat np ns N) (hwf : L.wf = true) (hN : 0 < N) (Z : Zeta K L.Nd)
     (ψ : Fin N → Fin np → Fin np → Cx K) (hψ : ∀ q j i, (ψ q j i).conj * ψ q j i = 1)
-    (hψn : ∀ q q' j i, P3.Dvd L.Nd ((L.kq q).add (L.kq q')) → ψ q' j i = (ψ q j i).conj)
     (mult : Fin ns → Fin np → Nat) (hm : ∀ k i, 0 < mult k i)
     (ms : Fin np → Fin np → K) (hms : ∀ i j, ms i j ≠ 0) (D dd : Fin N → DM np K)
     (hH : ∀ q, IsHermitian (fun i a j b => (⟨(D q i a j b).re - (dd q i a j b).re / ms i j,
                                               (D q i a j b).im - (dd q i a j b).im / ms i j⟩ : Cx K)))
     (hTR : ∀ q q', P3.Dvd L.Nd ((L.kq q).add (L.kq q')) → ∀ i a j b,
       (⟨(D q' i a j b).re - (dd q' i a j b).re / ms i j, (D q' i a j b).im - (dd q' i a j b).im / ms i j⟩ : Cx K)
-        = (⟨(D q i a j b).re - (dd q i a j b).re / ms i j, (D q i a j b).im - (dd q i a j b).im / ms i j⟩ : Cx K).conj)
+        = (ψ q' j i * ψ q j i) *
+          (⟨(D q i a j b).re - (dd q i a j b).re / ms i j, (D q i a j b).im - (dd q i a j b).im / ms i j⟩ : Cx K).conj)
     (q' : Fin N) :
     addDD (dynmat (cT L)
         (dynmatToFc L.s2pp (fun q i a j b => ⟨(D q i a j b).re - (dd q i a j b).re / ms i j,
                                               (D q i a j b).im - (dd q i a j b).im / ms i j⟩) ms (phI L Z ψ mult))
         ms (phF L Z ψ mult q')) (dd q') ms = D q' := by
   unfold dynmat
-  rw [roundtrip_dm_raw (L.wf_sound hwf) hN Z ψ hψ hψn mult hm ms hms _ q' (fun q hd => hTR q q' hd), hermitize_of_hermitian _ (hH q')]
+  rw [roundtrip_dm_raw (L.wf_sound hwf) hN Z ψ hψ mult hm ms hms _ q' (fun q hd => hTR q q' hd), hermitize_of_hermitian _ (hH q')]
   funext i a j b
   ext <;> simp [addDD]
 
@@ -239,6 +239,27 @@ theorem g_list_complete (rec cell : T3 K) (cutoffSq : K) (r : Nat)
     (hr : ∀ i, (cell i 0 * cell i 0 + cell i 1 * cell i 1 + cell i 2 * cell i 2) * cutoffSq ≤ ((r : K) + 1) ^ 2)
     (n : I3) : n ∈ gList rec cutoffSq r ↔ normSq (gVec rec n) < cutoffSq :=
   gList_complete rec cutoffSq r (gList_radius_sufficient rec cell cutoffSq r hinv hr) n
+
+/-- … in particular for the radius `safeGRad` (`⌊G_cutoff·max|a_i|⌋ + 1`, the proposed fix), when it is
+found below the cap. -/
+theorem g_list_complete_safe (rec cell : T3 K) (cutoffSq : K) (cap : Nat)
+    (hinv : ∀ i j, cell i 0 * rec 0 j + cell i 1 * rec 1 j + cell i 2 * rec 2 j = if i = j then 1 else 0)
+    (hfound : ∃ k, ((List.range cap).map fun (k : Nat) => k + 1).find? (fun (k : Nat) =>
+      (List.finRange 3).all fun i => decide (normSq (cell i) * cutoffSq < (k : K) * (k : K))) = some k)
+    (n : I3) : n ∈ gList rec cutoffSq (safeGRad cell cutoffSq cap) ↔ normSq (gVec rec n) < cutoffSq := by
+  obtain ⟨k, hk⟩ := hfound
+  have hs : safeGRad cell cutoffSq cap = k := by simp only [safeGRad, hk]
+  rw [hs]
+  have hp := List.find?_some hk
+  simp only [List.all_eq_true, List.mem_finRange, forall_const, decide_eq_true_eq] at hp
+  apply g_list_complete rec cell cutoffSq k hinv
+  intro i
+  have h1 := hp i
+  have e : normSq (cell i) = cell i 0 * cell i 0 + cell i 1 * cell i 1 + cell i 2 * cell i 2 := by
+    simp only [normSq, sumFin_eq, Fin.sum_univ_three]
+  rw [e] at h1
+  have : (k : K) * (k : K) ≤ ((k : K) + 1) ^ 2 := by nlinarith [Nat.cast_nonneg (α := K) k]
+  linarith
 
 /-- a skewed basis: real lattice `a₁ = (1,2,0), a₂ = (0,1,0), a₃ = (0,0,1)` -/
 def recSkew : T3 ℚ := fun i j => if i = 0 ∧ j = 0 then 1 else if i = 0 ∧ j = 1 then -2 else if i = j then 1 else 0
@@ -404,6 +425,7 @@ end PhononModel.C08
 #print axioms PhononModel.C08.dd_q0_hermitian_real
 #print axioms PhononModel.C08.g_list_symmetric
 #print axioms PhononModel.C08.g_list_complete
+#print axioms PhononModel.C08.g_list_complete_safe
 #print axioms PhononModel.C08.minGRad_insufficient
 #print axioms PhononModel.C08.born_symmetrize_projection
 #print axioms PhononModel.C08.epsilon_symmetrize_projection
